@@ -183,10 +183,14 @@ type SrvWorld struct {
 }
 
 type peerSettingsVal struct {
-	hasInit  bool
-	init     int64
-	hasFrame bool
-	frame    int64
+	hasInit    bool
+	init       int64
+	hasFrame   bool
+	frame      int64
+	hasStreams bool
+	streams    int64
+	hasTable   bool
+	table      int64
 }
 
 // permissiveInit is the largest initial stream window the server may legitimately believe in.
